@@ -489,3 +489,29 @@ def concrete_str(t):
     if z3.is_string_value(s):
         return s.as_string()
     return None
+
+
+class TupleKey(Kind):
+    """a tuple of single-term kinds packed into one z3 datatype value, so that
+    tuples can be dict keys / set elements"""
+
+    def __init__(self, name, fields):
+        self.fields = fields                     # [(field name, Kind)]
+        self.name = "tk:" + name
+        self._sort = None
+
+    def sort(self):
+        if self._sort is None:
+            d = z3.Datatype("TK_" + _mangle(self.name))
+            d.declare("mk", *[(f"{_mangle(self.name)}_{n}", k.sort()) for n, k in self.fields])
+            self._sort = d.create()
+        return self._sort
+
+    def wrap(self, t):
+        return VAtom(self, t)
+
+    def pack(self, items):
+        return VAtom(self, self.sort().mk(*[x.t for x in items]))
+
+    def field(self, t, i):
+        return self.sort().accessor(0, i)(t)
